@@ -159,6 +159,16 @@ func runC04(c *fw.Case) {
 	case 1:
 		put = func(b []byte) error { return os.WriteFile(filepath.Join(dir, "x.caibx"), b, 0644) }
 		get = func() (desync.Index, error) { return ls.GetIndex("x.caibx") }
+		// the store writes the index itself as well, over an older and longer file of the same name
+		os.WriteFile(filepath.Join(dir, "y.caibx"), append(append([]byte(nil), file...), bytes.Repeat([]byte("older index data "), 40)...), 0644)
+		if err := ls.StoreIndex("y.caibx", idx); err != nil {
+			c.Violate("store-failed", "LocalIndexStore.StoreIndex", "%v", err)
+			return
+		}
+		if yb, _ := os.ReadFile(filepath.Join(dir, "y.caibx")); !bytes.Equal(yb, file) {
+			c.Violate("stored-bytes-differ", "LocalIndexStore.StoreIndex", "an index stored over an older file of the same name: the file has %d bytes, Index.WriteTo gives %d", len(yb), len(file))
+			return
+		}
 	case 2:
 		h := desync.NewHTTPIndexHandler(ls, true, "")
 		u, _ := url.Parse("http://sim.invalid/")
@@ -170,7 +180,9 @@ func runC04(c *fw.Case) {
 		desync.VerifSetHTTPTransport(cl.RemoteHTTPBase, &simTransport{h: h})
 		put = func(b []byte) error { return os.WriteFile(filepath.Join(dir, "x.caibx"), b, 0644) }
 		get = func() (desync.Index, error) { return cl.GetIndex("x.caibx") }
-		// also store through the client once
+		// also store through the client once - over an older, longer file of the same name
+		older := append(append([]byte(nil), file...), bytes.Repeat([]byte("older index data "), 40)...)
+		os.WriteFile(filepath.Join(dir, "y.caibx"), older, 0644)
 		if err := cl.StoreIndex("y.caibx", idx); err != nil {
 			c.Violate("store-failed", "RemoteHTTPIndex.StoreIndex", "%v", err)
 			return
@@ -247,6 +259,7 @@ func runC04(c *fw.Case) {
 		put = func(b []byte) error { return os.WriteFile(filepath.Join(dir, "x.caibx"), b, 0644) }
 		get = func() (desync.Index, error) { return is.GetIndex("x.caibx") }
 		c.Probe("SFTPIndexStore (pkg/sftp server over the ssh shim)")
+		os.WriteFile(filepath.Join(dir, "y.caibx"), append(append([]byte(nil), file...), bytes.Repeat([]byte("older index data "), 40)...), 0644)
 		if err := is.StoreIndex("y.caibx", idx); err != nil {
 			c.Violate("store-failed", "SFTPIndexStore.StoreIndex", "%v", err)
 			return
